@@ -846,7 +846,7 @@ func evidence(prop, tierName string, seed int64, sums []Summary, recs []Record, 
 	cov := map[string]any{
 		"evaluations":         runs,
 		"distinct_nontrivial": len(shapes),
-		"rule": "one evaluation = one simulated run (scenario drawn from the run seed, schedule drawn from the same seed) of the real library on the simulated kernel; " +
+		"rule": "one evaluation = one simulated run (scenario drawn from the run seed, schedule drawn from the same seed) of the real library on the simulated kernel; three runs in four use this property's own scenario profile, every fourth the profile of another property (counts under fault_and_event_counts, keys profile:*); " +
 			"a run is non-trivial if at least one request reached the simulated wire or one datagram reached a library socket; two runs are distinct if the sequence of " +
 			"(event kind, error class, task, harness point, 64-byte-or-not) over the whole trace differs (times and payloads are ignored)",
 		"samples":                       samples,
